@@ -284,6 +284,11 @@ theorem static_ok (T : Tables) : ∀ f, StaticOK T f := by
               | false => rfl
               | true => simp [hc] at h
             simp only [hsc, Bool.false_eq_true, if_false] at h
+            have hcy : tabledCircular T d = false := by
+              cases hc : tabledCircular T d with
+              | false => rfl
+              | true => simp [hc] at h
+            simp only [hcy, Bool.false_eq_true, if_false] at h
             obtain ⟨hd, hf⟩ := memberNodes_spec T _ _ _ hm
             have s := ihL _ _ hf h
             rw [hd] at s
